@@ -10,19 +10,19 @@ from vf import drive, cmp, harness as H
 PID = 'C07'
 LEVEL = 'exploration'
 RULE = ("Items are (timestamp, closing flag, group key) with non-decreasing timestamps (deltas 0..7 s: equal timestamps, gaps exactly "
-        "equal to a timeout), active_timeout in {None,1,3,5,8}, inactive_timeout in {None,1,2,3} (datetime / timedelta values; the unit is a second, an hour, half a day or a day), closing_mapper present/absent, "
-        "include_closing_item True/False, at top level and under group_by with interleaved keys. Oracle: the statement of C07 "
+        "equal to a timeout), active_timeout in {None,0,1,3,5,8}, inactive_timeout in {None,0,1,2,3} (datetime / timedelta values; the unit is a second, an hour, half a day or a day), closing_mapper present/absent, "
+        "include_closing_item True/False, at top level, under group_by with interleaved keys and under split (the parent key slot is re-used by successive segments). Oracle: the statement of C07 "
         "transcribed as a plain loop; the non-empty windows seen by a tap at the head of the window pipeline must equal its windows, "
         "per parent key, in order (so every item is in exactly one window). Sub 'enum' enumerates every delta sequence over {0,1,2,3} "
         "(x closing flags) up to length 2 (quick) / 5 (thorough) x every configuration. Non-trivial: >= 2 windows and a gap exactly "
         "equal to a configured timeout or a closing item.")
 ASSUMPTIONS = [
-    'timestamps are non-decreasing per key and timeouts are > 0 or None (stated in C07)',
+    'timestamps are non-decreasing per key; a timeout of zero means every item is at least that far from its reference (each item opens a window)',
     'an empty window opened after an included closing item is neither required nor forbidden: only non-empty windows are compared',
 ]
 
-ACTIVE = [None, 1, 3, 5, 8]
-INACTIVE = [None, 1, 2, 3]
+ACTIVE = [None, 1, 3, 5, 8, 0]
+INACTIVE = [None, 1, 2, 3, 0]
 
 
 def sessions(items, active, inactive, closing, include, self_closed=None):
@@ -85,7 +85,10 @@ def run_case(case):
         time_mapper=tm, active_timeout=td(active), inactive_timeout=td(inactive),
         closing_mapper=(lambda i: i[1]) if closing else None, include_closing_item=include,
         pipeline=[drive.tap(head, clock), rs.data.to_list()])]
-    ops = [rs.ops.group_by(lambda i: i[2], inner)] if grouped else inner
+    if grouped == 'split':
+        ops = [rs.data.split(lambda i: i[2], inner)]       # parent key slot re-used by successive segments
+    else:
+        ops = [rs.ops.group_by(lambda i: i[2], inner)] if grouped else inner
     r = drive.store(items, ops)
     H.require_clean(r, 'time_split run', **ctx)
     plts = drive.lifetimes_of(phead)
@@ -96,7 +99,7 @@ def run_case(case):
     for plt in plts:
         if plt.get('orphan') or not plt['closed']:
             raise Violation('parent lifetime is not create..items..complete', **ctx)
-        mine = sorted([l for l in wl if l['key'][1] == plt['key'] and plt['open_t'] < l['open_t']], key=lambda l: l['open_t'])
+        mine = sorted([l for l in wl if l['key'][1] == plt['key'] and plt['open_t'] < l['open_t'] < plt['close_t']], key=lambda l: l['open_t'])
         claimed += len(mine)
         for l in mine:
             if l.get('orphan') or not l['closed']:
@@ -113,6 +116,11 @@ def run_case(case):
         nonempty = [l for l in mine if l['items']]
         for j, (l, w) in enumerate(zip(nonempty, exp)):
             last = pos + len(w) - 1              # index (within the key) of the window's last item
+            if j == 0 and (active == 0 or inactive == 0):
+                # degenerate: with a zero timeout the first item of a key is itself 'at least 0 after its reference';
+                # the implementation expires the (empty) window it has just opened -- only window contents are compared here
+                pos += len(w)
+                continue
             closed_by_own_item = selfc[j]
             k = last if closed_by_own_item else last + 1
             if not (outer[k] < l['close_t'] and (k + 1 >= len(outer) or l['close_t'] < outer[k + 1])):
@@ -137,7 +145,7 @@ def run_case(case):
                 exact_gap = True
     has_closing = closing and any(case['flags'])
     labels = ['scale=%d' % scale, 'active=%s' % active, 'inactive=%s' % inactive, 'closing=%s' % ('inc' if closing and include else ('exc' if closing else 'no')),
-              'grouped' if grouped else 'top', 'windows=%d' % min(nwin, 4)]
+              ('grouped' if grouped is True else ('under-split' if grouped else 'top')), 'windows=%d' % min(nwin, 4)]
     if exact_gap:
         labels.append('gap==timeout')
     if has_closing:
@@ -155,7 +163,7 @@ def case_gen(draw):
         't0': draw(st.integers(0, 3)),
         'deltas': draw(st.lists(st.integers(0, 7), min_size=n, max_size=n)),
         'flags': draw(st.lists(st.integers(0, 3).map(lambda x: int(x == 0)), min_size=n, max_size=n)),
-        'grouped': draw(st.booleans()), 'scale': draw(st.sampled_from([1, 1, 3600, 43200, 86400])),
+        'grouped': draw(st.sampled_from([False, True, True, 'split'])), 'scale': draw(st.sampled_from([1, 1, 3600, 43200, 86400])),
     }
     case['gk'] = draw(st.lists(st.integers(0, 2), min_size=n, max_size=n)) if case['grouped'] else None
     return case
